@@ -344,6 +344,19 @@ def main():
             v.known(f["signature"], kf.get("text", f["signature"]))
         else:
             v.violation(dict(f["replay"], property="C02", signature=f["signature"], what=f["text"]))
+    # "FusionART channels": channels whose module weight is longer than the sample slice (exact summary per channel)
+    import c10
+    rng_c = C.make_rng(seed, "C02-channels")
+    n_ch = 80 if tier == "quick" else 800
+    for _ in range(n_ch):
+        f = c10.long_weight(rng_c)
+        if f:
+            kf = C.match_known("C02", f["signature"])
+            if kf is not None:
+                v.known(f["signature"], kf.get("text", f["signature"]))
+            else:
+                v.violation(dict(f["replay"], property="C02", signature=f["signature"], what=f["text"]))
+    v.cov["fusion_long_weight_channel_fits"] = n_ch
     v.cov["implementation_streams"] = sn
     v.cov["stream_kinds"] = kinds
     v.cov["wrapped_base_module_streams"] = wn
